@@ -40,15 +40,17 @@ func (g *tgen) leaf(name string) *types.Type {
 func (g *tgen) key(name string) *types.Type {
 	n := 2
 	if g.vars {
-		n = 3
+		n = 4
 	}
 	switch sv.Choice(name, n) {
 	case 0:
 		return types.Num
 	case 1:
 		return types.Str
-	default:
+	case 2:
 		return g.va
+	default:
+		return g.vb
 	}
 }
 
